@@ -158,7 +158,7 @@ static inline void op_member(Ctx &c) {
       ids[k] = id;
       c.tr("locate", obs::esc(s, 64) + "=" + std::to_string(id), obs::esc(s, 64) + (id ? "=found" : "=0"));
       if (id < 1 || id > m.n) {
-        obs::violation("C01", "locate", id == 0 ? "missing" : "wrong-answer", "member", "s=" + obs::esc(s) + " rank=" + std::to_string(ix[k] + 1) + " got=" + std::to_string(id));
+        obs::violation(props, "locate", id == 0 ? "missing" : "wrong-answer", "member", "s=" + obs::esc(s) + " rank=" + std::to_string(ix[k] + 1) + " got=" + std::to_string(id));
         continue;
       }
       if (!seen.insert(id).second)
@@ -171,7 +171,7 @@ static inline void op_member(Ctx &c) {
         uint rl;
         obs::count("eval.extract");
         if (!do_extract(c, id, &e, &isnull, &rl, props, "extract") || e != s)
-          obs::violation("C01", "extract", isnull ? "missing" : "wrong-answer", "member", "id=" + std::to_string(id) + " expected=" + obs::esc(s) + " got=" + (isnull ? std::string("NULL") : obs::esc(e)));
+          obs::violation(props, "extract", isnull ? "missing" : "wrong-answer", "member", "id=" + std::to_string(id) + " expected=" + obs::esc(s) + " got=" + (isnull ? std::string("NULL") : obs::esc(e)));
       }
     }
     if (m.n > 0)
@@ -187,13 +187,13 @@ static inline void op_member(Ctx &c) {
       uint rl;
       obs::count("eval.extract");
       if (!do_extract(c, id, &e, &isnull, &rl, props, "extract")) {
-        obs::violation("C01", "extract", "missing", "member", "id=" + std::to_string(id) + " got=NULL");
+        obs::violation(props, "extract", "missing", "member", "id=" + std::to_string(id) + " got=NULL");
         c.tr("extract", std::to_string(id) + "=NULL", "");
         continue;
       }
       c.tr("extract", std::to_string(id) + "=" + obs::esc(e, 64), "");
       if (!m.has(e)) {
-        obs::violation("C01", "extract", "wrong-answer", "member", "id=" + std::to_string(id) + " got=" + obs::esc(e) + " (not a member)");
+        obs::violation(props, "extract", "wrong-answer", "member", "id=" + std::to_string(id) + " got=" + obs::esc(e) + " (not a member)");
         continue;
       }
       if (!got.insert(e).second)
@@ -204,7 +204,7 @@ static inline void op_member(Ctx &c) {
         size_t back = do_locate(c, e, props, "locate", "member");
         obs::count("eval.locate");
         if (back != id)
-          obs::violation("C01", "locate", "wrong-answer", "member", "locate(extract(" + std::to_string(id) + "))=" + std::to_string(back));
+          obs::violation(props, "locate", "wrong-answer", "member", "locate(extract(" + std::to_string(id) + "))=" + std::to_string(back));
       }
     }
     if (all) {
